@@ -630,4 +630,225 @@ theorem gradGate_eq [Zero K] [One K] (d i : Nat) (f : Bool) (hd : 0 < d)
     exact_mod_cast h
 
 
+/-! ## linearity of the implied blocks (derivative theorems) -/
+theorem natOf?_of_range (x : Int) (b : Nat) (h0 : 0 ≤ x) (h1 : x < (b : Int)) : natOf? x b = some x.toNat := by
+  unfold natOf?; rw [if_pos ⟨h0, h1⟩]
+
+theorem toNat_lin (k j : Int) (n : Nat) (hk : 0 ≤ k) (hj : 0 ≤ j) :
+    k.toNat * n + j.toNat = (k * (n : Int) + j).toNat := by
+  have h : ((k.toNat * n + j.toNat : Nat) : Int) = k * (n : Int) + j := by
+    push_cast; rw [Int.toNat_of_nonneg hk, Int.toNat_of_nonneg hj]
+  have hnn : 0 ≤ k * (n : Int) + j := by
+    have := Int.mul_nonneg hk (Int.natCast_nonneg n); omega
+  omega
+
+theorem vadd_right_comm [CommRing K] (a b c : List K) : vadd (vadd a b) c = vadd (vadd a c) b := by
+  unfold vadd
+  induction a generalizing b c with
+  | nil => simp
+  | cons x a ih =>
+    cases b with
+    | nil => cases c <;> simp
+    | cons y b =>
+      cases c with
+      | nil => simp
+      | cons z c => simp [ih]; ring
+
+theorem vadd_assoc [CommRing K] (a b c : List K) : vadd a (vadd b c) = vadd (vadd a b) c := by
+  unfold vadd
+  induction a generalizing b c with
+  | nil => simp
+  | cons x a ih =>
+    cases b with
+    | nil => simp
+    | cons y b =>
+      cases c with
+      | nil => simp
+      | cons z c => simp [ih]; ring
+
+theorem foldl_vadd_comm [CommRing K] (rs : List (List K)) (acc δ : List K) :
+    rs.foldl vadd (vadd acc δ) = vadd (rs.foldl vadd acc) δ := by
+  induction rs generalizing acc with
+  | nil => rfl
+  | cons r rs ih => simp only [List.foldl_cons]; rw [vadd_right_comm, ih]
+
+theorem oneHot_take_lt [Zero K] [One K] (L n i : Nat) (hn : n ≤ L) (hi : i < n) :
+    ((oneHot L i : List K).take n) = oneHot n i := by
+  unfold oneHot; rw [← List.map_take, List.take_range, Nat.min_eq_left hn]
+
+theorem oneHot_take_ge [Zero K] [One K] (L n i : Nat) (hn : n ≤ L) (hi : n ≤ i) :
+    ((oneHot L i : List K).take n) = List.replicate n 0 := by
+  unfold oneHot; rw [← List.map_take, List.take_range, Nat.min_eq_left hn]
+  apply List.ext_getElem (by simp)
+  intro k h1 h2
+  simp at h1
+  simp; omega
+
+theorem oneHot_drop_ge [Zero K] [One K] (L n i : Nat) (hn : n ≤ L) (hi : n ≤ i) :
+    ((oneHot L i : List K).drop n) = oneHot (L - n) (i - n) := by
+  obtain ⟨M, rfl⟩ : ∃ M, L = n + M := ⟨L - n, by omega⟩
+  obtain ⟨j, rfl⟩ : ∃ j, i = n + j := ⟨i - n, by omega⟩
+  rw [oneHot_shift, List.drop_left' (by simp)]; simp
+
+theorem oneHot_drop_lt [Zero K] [One K] (L n i : Nat) (hi : i < n) :
+    ((oneHot L i : List K).drop n) = List.replicate (L - n) 0 := by
+  unfold oneHot
+  apply List.ext_getElem (by simp)
+  intro k h1 h2
+  simp at h1
+  simp; omega
+
+theorem perturb_zero [CommRing K] (w : List K) (t : K) (L : Nat) (h : L = w.length) :
+    vadd w (lsmul t (List.replicate L 0)) = w := by
+  subst h; exact vadd_zero_smul w t
+
+theorem take_vadd [Add K] (a b : List K) (n : Nat) : (vadd a b).take n = vadd (a.take n) (b.take n) := by
+  unfold vadd; exact List.take_zipWith
+theorem drop_vadd [Add K] (a b : List K) (n : Nat) : (vadd a b).drop n = vadd (a.drop n) (b.drop n) := by
+  unfold vadd; exact List.drop_zipWith
+
+/-- the column sums of the reshaped perturbed vector: only column `i mod n` moves, by `t` -/
+theorem foldl_rows_perturb [CommRing K] (n k : Nat) (hn : 0 < n) (v acc : List K) (i : Nat) (t : K)
+    (hv : v.length = k * n) (hi : i < k * n) :
+    (rows n k (vadd v (lsmul t (oneHot (k * n) i)))).foldl vadd acc =
+      vadd ((rows n k v).foldl vadd acc) (lsmul t (oneHot n (i % n))) := by
+  induction k generalizing v acc i with
+  | zero => simp at hi
+  | succ k ih =>
+    have hL : n ≤ (k + 1) * n := by rw [Nat.succ_mul]; omega
+    have hLs : (k + 1) * n - n = k * n := by rw [Nat.succ_mul]; omega
+    have hdl : (v.drop n).length = k * n := by rw [List.length_drop, hv, hLs]
+    simp only [rows, List.foldl_cons, take_vadd, drop_vadd]
+    unfold lsmul
+    rw [← List.map_take, ← List.map_drop]
+    by_cases hin : i < n
+    · rw [oneHot_take_lt _ _ _ hL hin, oneHot_drop_lt _ _ _ hin, hLs]
+      have := perturb_zero (v.drop n) t (k * n) hdl.symm
+      unfold lsmul at this
+      rw [this, Nat.mod_eq_of_lt hin]
+      have e : vadd acc (vadd (v.take n) (List.map (fun x => t * x) (oneHot n i))) =
+          vadd (vadd acc (v.take n)) (List.map (fun x => t * x) (oneHot n i)) := vadd_assoc _ _ _
+      rw [e, foldl_vadd_comm]
+    · have hin' : n ≤ i := Nat.le_of_not_lt hin
+      rw [oneHot_take_ge _ _ _ hL hin', oneHot_drop_ge _ _ _ hL hin', hLs]
+      have htl : (v.take n).length = n := by rw [List.length_take, hv]; exact Nat.min_eq_left hL
+      have := perturb_zero (v.take n) t n htl.symm
+      unfold lsmul at this
+      rw [this]
+      have ih' := ih (v.drop n) (vadd acc (v.take n)) (i - n) hdl (by rw [Nat.succ_mul] at hi; omega)
+      unfold lsmul at ih'
+      rw [ih']
+      congr 3
+      have : i = (i - n) + n := by omega
+      conv_rhs => rw [this, Nat.add_mod_right]
+
+theorem vsub_vadd_smul [CommRing K] (a b e : List K) (t : K) :
+    vsub a (vadd b (lsmul t e)) = vadd (vsub a b) (lsmul (-t) e) := by
+  unfold vsub vadd lsmul
+  induction a generalizing b e with
+  | nil => simp
+  | cons x a ih =>
+    cases b with
+    | nil => simp
+    | cons y b =>
+      cases e with
+      | nil => simp
+      | cons z e => simp [ih]; ring
+
+/-- explicit stacked vector of a POVM variable vector of the right length (flag on): `var ++ implied last element` -/
+theorem povmStacked_explicit [Add K] [Sub K] [Zero K] (d k : Nat) (sq : K) (v : List K) (hd : 0 < d)
+    (hl : v.length = (k + 1) * d ^ 2) :
+    povmStackedOfVar d sq v true = some (v ++ povmLast d sq (rows (d ^ 2) (k + 1) v)) := by
+  have h1 : 1 ≤ d ^ 2 := Nat.pow_pos hd
+  have hd0 : d ≠ 0 := by omega
+  have hdiv : v.length / d ^ 2 = k + 1 := by rw [hl]; exact Nat.mul_div_cancel _ h1
+  have hprer : ∀ r ∈ rows (d ^ 2) (k + 1) v, r.length = d ^ 2 := rows_row_length _ _ _ hl
+  have hpref : (rows (d ^ 2) (k + 1) v).flatten = v := rows_flatten _ _ _ hl
+  have hlastl : (povmLast d sq (rows (d ^ 2) (k + 1) v)).length = d ^ 2 := povmLast_length d sq _ hd hprer
+  have hl2 : (v ++ povmLast d sq (rows (d ^ 2) (k + 1) v)).length = (k + 1 + 1) * d ^ 2 := by
+    rw [List.length_append, hl, hlastl]; ring
+  simp only [povmStackedOfVar, ↓reduceIte, vecsOfVar, hd0, hdiv, Nat.add_sub_cancel, reshape2_ok _ _ _ hl,
+    Option.bind_eq_bind, Option.bind_some, hpref, reshape2_ok _ _ _ hl2, Option.map_some, rows_flatten _ _ _ hl2]
+
+/-- the slice `[a, a+n)` of `t·e_i` (length `L`) -/
+theorem slice_oneHot [CommRing K] (L a n i : Nat) (t : K) (h : a + n ≤ L) :
+    ((lsmul t (oneHot L i : List K)).drop a).take n =
+      lsmul t (if a ≤ i ∧ i < a + n then oneHot n (i - a) else List.replicate n 0) := by
+  unfold lsmul
+  rw [← List.map_drop, ← List.map_take]
+  congr 1
+  by_cases h1 : a ≤ i
+  · rw [oneHot_drop_ge L a i (by omega) h1]
+    by_cases h2 : i < a + n
+    · rw [if_pos ⟨h1, h2⟩, oneHot_take_lt _ _ _ (by omega) (by omega)]
+    · rw [if_neg (by omega), oneHot_take_ge _ _ _ (by omega) (by omega)]
+  · rw [if_neg (by omega), oneHot_drop_lt L a i (by omega)]
+    rw [List.take_replicate]; congr 1; omega
+
+/-- the sum of the first rows of the first `cnt` HS blocks of the perturbed vector -/
+theorem firstRowSum_perturb [CommRing K] (d cnt : Nat) (hd : 0 < d) (v : List K) (i : Nat) (t : K)
+    (hv : hsSize d * cnt ≤ v.length) :
+    firstRowSum d cnt (vadd v (lsmul t (oneHot v.length i))) =
+      vadd (firstRowSum d cnt v)
+        (lsmul t (if i < hsSize d * cnt ∧ i % hsSize d < d ^ 2 then oneHot (d ^ 2) (i % hsSize d)
+                  else List.replicate (d ^ 2) 0)) := by
+  have h1 : 1 ≤ d ^ 2 := Nat.pow_pos hd
+  have hH : 0 < hsSize d := by unfold hsSize; exact Nat.mul_pos h1 h1
+  have hnH : d ^ 2 ≤ hsSize d := by unfold hsSize; exact Nat.le_mul_of_pos_left _ h1
+  unfold firstRowSum
+  induction cnt with
+  | zero =>
+    simp only [List.range_zero, List.foldl_nil, Nat.mul_zero, Nat.not_lt_zero, false_and, ↓reduceIte]
+    exact (perturb_zero _ t (d ^ 2) (by simp)).symm
+  | succ c ih =>
+    have hvc : hsSize d * c ≤ v.length := by rw [Nat.mul_succ] at hv; omega
+    have hslice : hsSize d * c + d ^ 2 ≤ v.length := by rw [Nat.mul_succ] at hv; omega
+    rw [List.range_succ, List.foldl_append, List.foldl_append]
+    simp only [List.foldl_cons, List.foldl_nil]
+    rw [ih hvc, drop_vadd, take_vadd, slice_oneHot v.length (hsSize d * c) (d ^ 2) i t hslice]
+    -- combine the two perturbations
+    set A := List.foldl (fun acc o => vadd acc (List.take (d ^ 2) (List.drop (hsSize d * o) v)))
+      (List.replicate (d ^ 2) 0) (List.range c) with hA
+    set S := List.take (d ^ 2) (List.drop (hsSize d * c) v) with hS
+    have hSl : S.length = d ^ 2 := by rw [hS, List.length_take, List.length_drop]; omega
+    have hcomb : ∀ (x y : List K), vadd (vadd A (lsmul t x)) (vadd S (lsmul t y)) =
+        vadd (vadd A S) (vadd (lsmul t x) (lsmul t y)) := by
+      intro x y
+      rw [vadd_assoc, vadd_right_comm A (lsmul t x) S, ← vadd_assoc]
+    rw [hcomb]
+    congr 1
+    -- case analysis on where i lies
+    have hmod : ∀ (q : Nat), hsSize d * q ≤ i → i < hsSize d * q + hsSize d → i % hsSize d = i - hsSize d * q := by
+      intro q h1 h2
+      have : i = (i - hsSize d * q) + hsSize d * q := by omega
+      conv_lhs => rw [this, Nat.add_mul_mod_self_left]
+      exact Nat.mod_eq_of_lt (by omega)
+    by_cases hlt : i < hsSize d * c
+    · have hc2 : ¬ (hsSize d * c ≤ i ∧ i < hsSize d * c + d ^ 2) := by omega
+      have hc3 : i < hsSize d * (c + 1) := by rw [Nat.mul_succ]; omega
+      rw [if_neg hc2]
+      simp only [hlt, hc3, true_and]
+      have hz := perturb_zero (lsmul t (if i % hsSize d < d ^ 2 then (oneHot (d ^ 2) (i % hsSize d) : List K)
+        else List.replicate (d ^ 2) 0)) t (d ^ 2) (by split <;> simp [lsmul, oneHot])
+      exact hz
+    · have hge : hsSize d * c ≤ i := Nat.le_of_not_lt hlt
+      rw [if_neg (by omega : ¬ (i < hsSize d * c ∧ i % hsSize d < d ^ 2))]
+      have hzl : vadd (lsmul t (List.replicate (d ^ 2) (0 : K))) =
+          fun y => vadd (lsmul t (List.replicate (d ^ 2) (0 : K))) y := rfl
+      by_cases hin : i < hsSize d * c + d ^ 2
+      · have hm := hmod c hge (by omega)
+        rw [if_pos ⟨hge, hin⟩, if_pos ⟨by rw [Nat.mul_succ]; omega, by rw [hm]; omega⟩, hm]
+        unfold vadd lsmul
+        apply List.ext_getElem (by simp [oneHot])
+        intro k hk1 hk2
+        simp
+      · rw [if_neg (by omega)]
+        by_cases hin2 : i < hsSize d * (c + 1)
+        · have hm := hmod c hge (by rw [Nat.mul_succ] at hin2; omega)
+          rw [if_neg (by rw [hm]; omega)]
+          unfold vadd lsmul; simp
+        · rw [if_neg (by omega)]
+          unfold vadd lsmul; simp
+
+
 end QM.C03
